@@ -844,3 +844,115 @@ func init() {
 		t.ev("c20.trace", "canon", "pongs "+strings.Join(pongs, " , "), "connections", p.Dials())
 	}})
 }
+
+func init() {
+	// C03 (TCP end to end): frames larger than the connection's read buffer (bodies of 1 MiB and 3 MiB are legal: the limit is 16 MiB - 1)
+	// arrive in many reads and are delivered whole, in order, with the small frames around them
+	register(&scenario{Name: "c03/tcp-big-frames", Props: []string{"C03", "C13"}, Quick: true, TimeoutU: 400, Run: func(t *T) {
+		p := newPeer(t, t.Transport, t.Version)
+		defer p.Shutdown()
+		var mu sync.Mutex
+		var got []string
+		sizes := []int{10, 65536, 1<<20 - 1, 1 << 20, 7, 3 << 20, 1<<20 + 1, 12}
+		var want []string
+		var frames [][]byte
+		for i, n := range sizes {
+			body := make([]byte, n)
+			for k := range body {
+				body[k] = byte(k*7 + i*13 + k>>8)
+			}
+			want = append(want, fmt.Sprintf("%d:%x", n, fnv64(body)))
+			frames = append(frames, specEncode(p.version, pushFrame(50, body)))
+		}
+		p.onFrame = func(pc *peerConn, f frameIn) {
+			if stdReply(pc, f) {
+				return
+			}
+			if f.Typ == 1 && f.Cmd == 100 {
+				for _, fr := range frames {
+					pc.SendRaw(fr)
+				}
+				pc.Send(respFrame(f, 0, f.Body))
+			}
+		}
+		cfg := defaultCfg()
+		cfg.ReadQueue = 64
+		cfg.Handlers = map[uint32][]func(*protocol.Packet){50: {func(pk *protocol.Packet) {
+			mu.Lock()
+			got = append(got, fmt.Sprintf("%d:%x", len(pk.Body), fnv64(pk.Body)))
+			mu.Unlock()
+		}}}
+		cl, err := t.NewClient(p, cfg)
+		if err != nil {
+			t.Check("setup", false, "dial: %v", err)
+			return
+		}
+		defer cl.Close(nil)
+		r := t.Do(cl, "burst", 100, 200)
+		t.Sleep(4)
+		mu.Lock()
+		defer mu.Unlock()
+		t.Check("tcp_reading_spec", r.Err == nil, "the response sent after the large frames never arrived: %v", r.Err)
+		t.Check("tcp_reading_spec", strings.Join(got, " ") == strings.Join(want, " "), "frames delivered to the application %v differ from the frames the peer sent %v (body length:checksum)", got, want)
+		t.Check("dispatch_spec", strings.Join(got, " ") == strings.Join(want, " "), "pushes delivered %v, sent %v", got, want)
+	}})
+}
+
+func fnv64(b []byte) uint64 {
+	h := uint64(0xcbf29ce484222325)
+	for _, c := range b {
+		h = (h ^ uint64(c)) * 0x100000001b3
+	}
+	return h
+}
+
+func init() {
+	// C17: the keepalive goroutine reads the heartbeat bookkeeping on every tick while a recovery is waiting for its (delayed) resume
+	// answer and then resets that bookkeeping: several ticks fall into the resume round trip (race-detector witness search)
+	register(&scenario{Name: "c17/keepalive-during-resume", Props: []string{"C17", "C15"}, Quick: true, Run: func(t *T) {
+		p := newPeer(t, t.Transport, t.Version)
+		defer p.Shutdown()
+		p.onFrame = func(pc *peerConn, f frameIn) {
+			if f.WsKind == "ping" {
+				pc.WsControl(10, f.Body)
+				return
+			}
+			if f.WsKind != "" && f.WsKind != "binary" {
+				return
+			}
+			if f.Typ != 1 {
+				return
+			}
+			switch f.Cmd {
+			case 1:
+				pc.Send(respFrame(f, 0, f.Body))
+			case 2:
+				pc.Send(respFrame(f, 0, authBody("session-A", time.Hour)))
+			case 3:
+				go func() { time.Sleep(t.U(5)); pc.Send(respFrame(f, 0, authBody("session-B", time.Hour))) }()
+			case 100:
+				pc.Send(respFrame(f, 0, f.Body))
+			case 199:
+				pc.Drop()
+			}
+		}
+		cfg := defaultCfg()
+		cfg.Token = true
+		cfg.KeepaliveU, cfg.KeepaliveTimeoutU = 1, 30
+		cfg.AuthTimeoutU = 30
+		cl, err := t.NewClient(p, cfg)
+		if err != nil {
+			t.Check("setup", false, "dial: %v", err)
+			return
+		}
+		defer cl.Close(nil)
+		t.Sleep(3)
+		for i := 0; i < 3; i++ {
+			t.DoAsync(cl, fmt.Sprintf("loss-%d", i), 199, 2)
+			t.Sleep(12)
+		}
+		t.Join()
+		r := t.Do(cl, "after", 100, 6)
+		t.Check("no_false_positive", r.Err == nil, "request after three resumed recoveries: %v", r.Err)
+	}})
+}
